@@ -116,7 +116,7 @@ theorem metrics_nesting_partial_closed (gens : Gens) (ls : List Label) (idx t h 
   exact close_finished _ h tk st hN hst hs
 
 /-- C11.same_context_partial: task `t` starts consuming a fresh stream `h` in context `c` and from then on only
-calls `__anext__` / `aclose` on it or probes, while the other tasks do anything at all except touch `h`
+calls `__anext__` / `aclose` on it, probes, or catches a cancellation request, while the other tasks do anything at all except touch `h`
 (`SessionLabel`): whenever the stream has ended – exhausted, failed, or closed early by `t` – the context of `t` is
 `c` again: state, metrics scope and task group.  In between, `c` is what resetting the generator's open blocks
 would give back (the consumer sits *inside* those blocks – see `consumer_inside_stream_scope`). -/
@@ -316,7 +316,7 @@ example :
 
 /-- the hypotheses of `same_context_partial` are satisfiable, with another task interleaved -/
 example :
-    let ls : List Label := [⟨0, .next 0⟩, ⟨1, .enterA 5⟩, ⟨0, .probe⟩, ⟨0, .next 0⟩, ⟨1, .exit⟩, ⟨0, .next 0⟩]
+    let ls : List Label := [⟨0, .next 0⟩, ⟨1, .enterA 5⟩, ⟨0, .caught⟩, ⟨0, .next 0⟩, ⟨1, .exit⟩, ⟨0, .next 0⟩]
     (∀ l ∈ ls, SessionLabel 0 0 l) ∧
     let s := (run twoItems [⟨0, .enterA 1⟩, ⟨0, .mk 0 0⟩, ⟨0, .spawn 1⟩]).1
     ((lookup s.streams 0).map (·.status) = some .unstarted) ∧
